@@ -37,7 +37,7 @@ def first_start(case):
 def in_quantifier(case):
     """-> (True, info) or (False, reason)"""
     app = case["app"]
-    if case["req"]["err"] is not None or case["disc"] is not None:
+    if case["req"]["err"] is not None or case["disc"] is not None or case.get("wc"):
         return False, "not an application response"
     st = first_start(case)
     if st is None:
@@ -248,6 +248,9 @@ def run(ctx):
     idx, queries = [], []
     outside = {}
     for i, ((tag, case), real) in enumerate(zip(cases, reals)):
+        if case.get("wc"):
+            outside["connection already marked for closing"] = outside.get("connection already marked for closing", 0) + 1
+            continue
         if case["req"]["err"] is not None:
             idx.append((i, None))
         else:
